@@ -710,6 +710,11 @@ class Graph:
                 tgt = edges.get(v, other)
                 if tgt is None:
                     continue
+                # the threaded path continues *behind* the edge node: an edge node stands for "this test was evaluated
+                # with this outcome", and a path on which the outcome is known without evaluating the test must not
+                # count as having passed it (guard rules ask for dominance by edge nodes)
+                if len(self.nodes[tgt].succs) == 1:
+                    tgt = self.nodes[tgt].succs[0]
                 # region between O and the switch: everything reachable from O without passing S
                 region = self.reachable(O.succs, blocked={sid})
                 touches = any(sid in self.nodes[r].succs for r in region) or sid in O.succs
